@@ -394,6 +394,9 @@ class Gen:
             if w < 0.35:
                 ver += 1
                 val = hx(b"v%d" % ver + b"x" * r.choice([0, 10, 100, 200])) if r.random() > 0.08 else hx(b"")     # the empty value is a value
+                if r.random() < 0.08:
+                    # arbitrary bytes: line ends, NUL, bytes that are not UTF-8, protocol look-alikes
+                    val = hx(r.choice([b"line one\r\nline two\r\n", b"\n", b"\r", b"\x00\xff\xfe", b"$-1\r\n", b"+OK\r\n", b"*2\r\n$1\r\na"]) + b"%d" % ver)
                 if tsize <= 4096 and r.random() < 0.05:
                     # the largest entries a table takes: 29 + key + value just below the table size, on primary and backups alike
                     klen = len(bytes.fromhex(key)) if key != "-" else 0
